@@ -106,8 +106,7 @@ fn idat_shape_x<const L1: usize, const L2: usize, const T: usize, const RECREATE
 }
 macro_rules! cheap_crc { ($(#[$m:meta])* fn $n:ident() $b:block) => { kproof! {
     $(#[$m])*
-    #[kani::stub(crc32fast::Hasher::update, crc32fast::Hasher::update_cheap)]
-    fn $n() $b
+    fn $n() { crc32fast::verif_set_cheap(true); $b }
 } } }
 cheap_crc! {
     /// K01e-1: one chunk of 6 / 9 / 7 payload bytes, nothing / 8 / 20 bytes behind it
